@@ -93,6 +93,17 @@ CLAIMED = {
              "(re-queue reorders data frames).",
         ref="§4 C07", technique="symbolic execution with symbolic time on a virtual event loop (CrossHair + z3)", engine="vloop",
     ),
+    "C06": dict(
+        text="Bounded symbolic execution (CrossHair + z3) of the real DoIPTransport._connect / DoIPConnection / DoIPTransport on a virtual-time event loop "
+             "against a scripted gateway. Routing activation: source address, activation type (all 256), response code (all 256), protocol version and "
+             "the response instant symbolic: the request bytes carry exactly the configured values and the connection is usable iff the code is 0x10 in time. "
+             "Protocol: frame instants, cut offsets (per frame and of the whole coalesced stream) and gaps symbolic; write completes iff a matching "
+             "positive ack (or TargetUnreachable) arrives within 2 s, else connection error at 2 s; reads deliver exactly the target->source diagnostic "
+             "payloads in order; foreign frames stay queued; alive checks answered within 0.5 s in every client phase; generic header codec on symbolic bytes.",
+        note="Trusted: CrossHair, z3, engine/vloop.py. Frame kinds concrete per obligation (<= 3 frames), kernel TCP / TLS / UDP discovery outside. Two recorded "
+             "known findings (re-queue reorders; skipped frames lost when a read times out), two fixed defects.",
+        ref="§4 C06", technique="symbolic execution with symbolic time on a virtual event loop (CrossHair + z3)", engine="vloop",
+    ),
     "C02": dict(
         text="Bounded symbolic execution (CrossHair + z3) of the real UDSResponse.parse_dynamic / from_pdu / pdu code: for every first byte "
              "0x00-0xFF and every total length in the stated bound, with all remaining bytes symbolic, every path is explored and the "
